@@ -119,17 +119,29 @@ def rule_r1(chk, p, t):
             r.violation(cm.qualname, f"mean:{ok_am}:{ok_lin}:{bool(ok_b)}:{bool(ok_zip)}", "the predicted-measurement mean is not the circular mean for angular rows (or a linear weighted mean is applied to angular rows / with the wrong bounds)", cm.loc())
 
     r.guard("calcMeasurementMean", mean)
-    # flags derived from the measurement kinds
+    angular_flags_check(r, p)
+
+
+def angular_flags_check(r, p):
+    """The boolean `is_angular` flags handed to residuals() are true exactly for the components whose declared kind is an
+    angular one (`kind in VALID_ANGULAR_MEASUREMENTS`, per stacked component).  IsAngle is an IntEnum whose NOT_ANGLE
+    member is non-zero, so a truth-value cast flags every component - linear ones included - as angular."""
     for q, meth in ((UKF, "calculateMeasurementMatrix"), (GPF, None)):
         cls = p.cls(q)
         cands = [m for m in cls.methods.values() if any(isinstance(n, ast.Assign) and unparse(n.targets[0]) == "self.is_angular" for n in walk_no_nested(m.node))]
         for m in cands:
             asg = [n for n in walk_no_nested(m.node) if isinstance(n, ast.Assign) and unparse(n.targets[0]) == "self.is_angular"][0]
             txt = unparse(asg.value)
-            if "in VALID_ANGULAR_MEASUREMENTS for" in txt and "angular_measurements" in txt:
+            member = ("in VALID_ANGULAR_MEASUREMENTS for" in txt or ("isin(" in txt and "VALID_ANGULAR_MEASUREMENTS" in txt) or "!= IsAngle.NOT_ANGLE" in txt) and "angular_measurements" in txt
+            truthy = any(isinstance(c, ast.Call) and ((call_name(c) == "astype" and c.args and unparse(c.args[0]) in ("bool", "bool_", "np.bool_")) or call_name(c) in ("bool", "asarray", "array") and any(k.arg == "dtype" and unparse(k.value) in ("bool", "bool_") for k in c.keywords) or call_name(c) == "bool") for c in ast.walk(asg.value))
+            if member:
                 r.ok(m.qualname + ":flags", "flag = kind in VALID_ANGULAR_MEASUREMENTS, per stacked component", m.loc(asg))
+            elif ("in VALID_ANGULAR_MEASUREMENTS for" in txt or "isin(" in txt) and "angular_measurements" not in txt:
+                r.violation(m.qualname + ":flags", f"flags:{txt[:60]}", f"angular flags are built as `{txt[:80]}`: not from the kinds of the components being stacked now (the `angular_measurements` argument) - a stale layout pairs flags with the wrong rows", m.loc(asg))
+            elif not truthy or "VALID_ANGULAR_MEASUREMENTS" in txt or "NOT_ANGLE" in txt:
+                r.undecided(m.qualname + ":flags", f"angular flags built as `{txt[:80]}`: form not recognised", m.loc(asg))
             else:
-                r.violation(m.qualname + ":flags", f"flags:{txt[:60]}", f"angular flags are built as `{txt[:80]}`", m.loc(asg))
+                r.violation(m.qualname + ":flags", f"flags:{txt[:60]}", f"angular flags are built as `{txt[:80]}`: not `kind in VALID_ANGULAR_MEASUREMENTS` per stacked component (IsAngle.NOT_ANGLE is a non-zero IntEnum member, so truth-value casts flag linear components as angles and their residuals get wrapped into (-pi, pi])", m.loc(asg))
         _ = meth
 
 
